@@ -224,6 +224,48 @@ def h_persist(ctx, opt, libserver=False):
         rmtree(d)
 
 
+def cli_tokens(opt, value):
+    """command-line tokens that set option opt through the real argument parser"""
+    flag = {"unclosedelements": "--unclosedelements", "nonewfileuid": "--nonewfileuid", "skipprofile": "--skipprofile", "pretty": "--pretty"}.get(opt, "--" + opt)
+    if opt in BOOL_OPTS:
+        return [flag]
+    if opt in LIST_OPTS:
+        out = []
+        for v in value:
+            out += [flag, v]
+        return out
+    return [flag, str(value)]
+
+
+def parse_cli(tokens):
+    import contextlib, io
+    with contextlib.redirect_stderr(io.StringIO()):
+        return ofxget.make_argparser().parse_args(tokens)
+
+
+rt.NATIVE_FUNCS.update({cli_tokens, parse_cli})
+
+
+def h_argparser(ctx, opt):
+    """the real argument parser in front of merge_config: an option absent from the command line must not shadow the
+    stored value; one given on the command line wins"""
+    given = ctx.bool("given_on_command_line")
+    usr = ctx.bool("stored_in_user_file")
+    cliv = value_for(opt, "cli")
+    if opt in BOOL_OPTS:
+        cliv = True
+    usrv = value_for(opt, "usr") if opt not in BOOL_OPTS else True
+    tokens = ["stmt", SERVER, "--dryrun"] + (cli_tokens(opt, cliv) if given else [])
+    ns = parse_cli(tokens)
+    ctx.stub(ofxhome, "lookup", lambda id_: None)
+    cfg = make_config({}, {opt: usrv} if usr else {})
+    merged = ofxget.merge_config(ns, cfg)
+    want = cliv if given else (usrv if usr else ofxget.DEFAULTS[opt])
+    ctx.check("through the real argument parser: command line if given, else the stored value, else the default", merged[opt] == want)
+    others = [o for o in BOOL_OPTS + ["version", "org"] if o != opt]
+    ctx.check("options not given on the command line stay unset there", all([o not in ofxget.extractns(ns) for o in others]))
+
+
 def h_layering(ctx):
     """side condition: the bundled FI database is read before the user's file, so the user's file wins within a section"""
     import inspect
@@ -232,7 +274,7 @@ def h_layering(ctx):
     ctx.check("configured options have typed readers", set(ofxget.CONFIGURABLE) >= set(ALL_OPTS))
 
 
-HARNESSES = dict(precedence=h_precedence, persist=h_persist, layering=h_layering)
+HARNESSES = dict(argparser=h_argparser, precedence=h_precedence, persist=h_persist, layering=h_layering)
 
 META = dict(
     bounds=dict(precedence="every configurable option; symbolic subset of the places that set it (command line, user section, library section, OFX Home for url/org/fid/brokerid); "
@@ -248,6 +290,7 @@ META = dict(
 def instances(tier, seed):
     out = []
     for o in ALL_OPTS:
+        out.append(dict(name=f"argparser[{o}]", harness="argparser", fn=h_argparser, params=dict(opt=o), opts=dict(wall_s=120)))
         out.append(dict(name=f"precedence[{o}]", harness="precedence", fn=h_precedence, params=dict(opt=o), opts=dict(wall_s=120)))
     for o in CANDIDATES:
         out.append(dict(name=f"persist[{o}]", harness="persist", fn=h_persist, params=dict(opt=o), opts=dict(wall_s=300)))
